@@ -100,9 +100,10 @@ fn inverse_affine<T: Sx, M: Inv4<T>>() {
     for i in 0..4 {
         for j in 0..4 {
             let name = if j == 3 && i < 3 { format!("cutT/M*inv[{}][3]", i) } else { format!("M*inv[{}][{}]", i, j) };
-            goal(&name, eq(p[i][j], k((i == j) as i64)));
             if i < 3 && j < 3 {
-                hyp("cutT/", eq(p[i][j], k((i == j) as i64)));
+                lemma("cutT/", &name, eq(p[i][j], k((i == j) as i64)));
+            } else {
+                goal(&name, eq(p[i][j], k((i == j) as i64)));
             }
         }
     }
